@@ -168,7 +168,8 @@ pub fn short_loc(loc: &str) -> String {
         let f = l.rsplit('/').next().unwrap_or(l);
         return f.split(':').next().unwrap_or(f).to_string();
     }
-    l.to_string()
+    // no line number: unrelated edits to the same file must not change a fingerprint
+    l.split(':').next().unwrap_or(l).to_string()
 }
 
 /// Panic message without input-specific payload (text after the first ':' or '`' is dropped).
